@@ -26,6 +26,11 @@ const nsStreamDecl = " xmlns:stream='http://etherx.jabber.org/streams'"
 func (it sItem) wsXML() string {
 	switch it.T {
 	case "header":
+		if it.Open == "other" {
+			o := it
+			o.Open = ""
+			return o.xml() // the <stream:stream> of the TCP binding
+		}
 		return fmt.Sprintf("<open xmlns='urn:ietf:params:xml:ns:xmpp-framing' from='%s' id='%s' version='1.0'/>", srvDomain, attrEsc(it.ID))
 	case "close":
 		return "<close xmlns='urn:ietf:params:xml:ns:xmpp-framing'/>"
@@ -109,6 +114,7 @@ func runSessionWS(in sessIn) Sx {
 		mu.Unlock()
 		groups := in.Conns[k].Groups
 		sent := 0
+		pendingIQ, bindIQ := "", ""
 		for {
 			rctx, rcancel := context.WithTimeout(ctx, 8*time.Second)
 			_, b, err := c.Read(rctx)
@@ -123,6 +129,15 @@ func runSessionWS(in sessIn) Sx {
 			mu.Lock()
 			reqLog[k] = append(reqLog[k], rq)
 			mu.Unlock()
+			pendingIQ = ""
+			if len(rq.L) > 0 && (rq.L[0].Z == 4 || rq.L[0].Z == 5) { // bind / session request
+				if m := reIQID.FindSubmatch(b); m != nil {
+					pendingIQ = string(m[1])
+					if rq.L[0].Z == 4 {
+						bindIQ = pendingIQ
+					}
+				}
+			}
 			if sent >= len(groups) {
 				return // nothing left to answer with: the peer goes away
 			}
@@ -132,6 +147,17 @@ func runSessionWS(in sessIn) Sx {
 				}
 				if it.T == "eof" {
 					return
+				}
+				if it.T == "iq" {
+					switch {
+					case !it.KeepID && pendingIQ != "":
+						it.ID = pendingIQ
+					case it.KeepID && it.ID == "@bind":
+						it.ID = bindIQ
+						if pendingIQ == bindIQ {
+							it.ID = "zz-" + bindIQ // (in answer to the bind request itself the bind id would be the right one)
+						}
+					}
 				}
 				if c.Write(ctx, websocket.MessageText, []byte(it.wsXML())) != nil {
 					return
